@@ -14,7 +14,14 @@ for pid in sys.argv[1:]:
     t = t.replace(c01["why_tests_cant"], p["why_tests_cant"]).replace(", ".join(c01["anchors"]["files"]), ", ".join(p["anchors"]["files"]))
     t = t.replace("C01", pid).replace("11b8147", head)
     t = t.replace("(git stash your change)", "(NEVER use `git stash`: it is shared between worktrees; toggle your change with `git diff > /tmp/mut_%s_out/patch.diff`, `git apply -R /tmp/mut_%s_out/patch.diff`, `git apply /tmp/mut_%s_out/patch.diff`)" % (pid, pid, pid))
-    assert c01["title"] not in t and "stash your" not in t
+    assert (pid == "C01" or c01["title"] not in t) and "stash your" not in t
+    # round 2+: name the changes already seeded for this property so that the new one is of a different kind
+    import glob
+    prev = []
+    for mf in sorted(glob.glob(os.path.join(V, "seeded", pid + "-*", "meta.json"))):
+        prev.append(json.load(open(mf))["what"])
+    if prev:
+        t = t.replace("YOUR TASK:", "AVOID REPEATS: earlier rounds already produced the following change(s) for this property; yours must be of a different kind, in a different function (ideally a different file) and need a different trigger:\n" + "\n".join("  - " + x for x in prev) + "\n\nYOUR TASK:", 1)
     w = "/tmp/mut_" + pid
     os.makedirs(w + "_out", exist_ok=True)
     if not os.path.isdir(w):
